@@ -10,7 +10,8 @@ The body of `numeric_utils::calculate_shifts` is read from clang's JSON AST and 
     `mod 18446744073709551616` (Definition calculate_shifts; used by the failing-input sweep).
 Only the AST is used, so comments / whitespace / parentheses / hex-vs-decimal literals do not
 matter; the parameter becomes variable 0 and the locals 1, 2, ... in declaration order;
-`a op= e` is normalised to `a = a op e`, `a > b` to `b < a`, `!c` to `c == 0`.  Any construct
+`a op= e` is normalised to `a = a op e`, `a > b` to `b < a`, `!c` to `c == 0`, a literal
+first operand of a commutative operator is moved to the second place.  Any construct
 outside the small fragment below raises Unsupported (the check then reports the tie as broken
 and sweeps the real code).
 
@@ -132,6 +133,8 @@ class Tr:
         raise Unsupported("expression kind " + k)
 
     def binop(self, op, a, b, res_u64, res_ty):
+        if op in ("==", "!=", "|", "&", "^", "+", "*") and a[1] == "lit" and b[1] != "lit":
+            a, b = b, a     # commutative: literal operand second (`0 == x` is `x == 0`)
         if op in CMP:
             return (("bin", CMP[op], a[0], b[0]), "bool")
         if op == ">":
